@@ -669,54 +669,60 @@ def run(ctx):
                     cases.append(gen_case(ctx.rng, kind, dict(normal=normal, ntex=ntex, size=size)))
     while len(cases) < ncases:
         cases.append(gen_rejected(ctx.rng) if ctx.rng.random() < 0.04 else gen_case(ctx.rng))
-    lines = []
-    for c in cases:
-        lines.extend(lines_of(c))
-    nreal = len(lines)
-    lines.extend(MALFORMED)
-    model = ctx.driver('C10', lines) if ctx.lean_ok else None
     reported = set()
-    pos = 0
-    for c in cases:
-        ls = lines_of(c)
-        answers, bad = run_impl(c)
-        n = nitems(c)
-        ctx.count('via:' + c.pop('_via', 'none'))
-        ctx.case(c, nontrivial=n > 0 and not c.get('expect_reject'))
-        ctx.count('kind:' + c['kind'])
-        ctx.count('size:%d' % min(n, 6))
-        ctx.count('inputs:normal=%d,tex=%d' % (1 if c['normal'] else 0, len(c['tex'])))
-        ctx.count('nodes:%d' % len(c['matrices']))
-        ctx.count('outcome:' + ('reject' if answers[0] == 'reject' else 'accept'))
-        ctx.count('positions', len(positions(n)) * 2 if not c.get('expect_reject') else 0)
-        if c['kind'] not in ARITY and any(v == 0 for v in c['vcounts']):
-            ctx.count('polygons-with-zero-corners')
-        if bad:
-            if bad[0] not in reported:
-                reported.add(bad[0])
-                small = shrink(c, bad[0])
-                _, b2 = run_impl(small)
-                ctx.violation(b2[0], b2[1], dict(kind='oracle', case=small, lines=lines_of(small)))
-        elif model is not None:
-            want = model[pos:pos + len(ls)]
-            if want != answers:
-                i = next(j for j in range(len(ls)) if j >= len(answers) or want[j] != answers[j])
-                op = ls[i].split(' ')[0] + (':' + ls[i].split(' ')[1] if i else '')
-                sig = 'corr:%s:%s' % (c['kind'], op)
-                if sig not in reported:
-                    reported.add(sig)
-                    ctx.violation(sig, 'correspondence Pyc.ItemAccess <-> pycollada broke at %r: model %r, implementation %r; the direct '
-                                  'oracle found no failing input on this case (the theorems of Pyc/Props/C10.lean no longer describe the code)'
-                                  % (ls[i], want[i], answers[i] if i < len(answers) else None),
-                                  dict(kind='correspondence', case=c, line=ls[i], model=want[i], impl=answers[i] if i < len(answers) else None),
-                                  found_input=False)
-        pos += len(ls)
-    if model is not None:
-        tail = model[nreal:]
-        wrong = [l for l, a in zip(MALFORMED, tail) if a != 'bad-op']
-        ctx.count('malformed-lines', len(MALFORMED))
-        if wrong:
-            ctx.violation('corr:malformed', 'driver accepted malformed request(s): %r' % wrong[:3], dict(kind='correspondence', lines=wrong), found_input=False)
+    CHUNK = 4000  # one driver batch per 4000 cases (the quick tier is a single batch)
+    for start in range(0, len(cases), CHUNK):
+        chunk = cases[start:start + CHUNK]
+        last = start + CHUNK >= len(cases)
+        lines = []
+        for c in chunk:
+            lines.extend(lines_of(c))
+        nreal = len(lines)
+        if last:
+            lines.extend(MALFORMED)
+        model = ctx.driver('C10', lines) if ctx.lean_ok else None
+        pos = 0
+        for c in chunk:
+            ls = lines_of(c)
+            answers, bad = run_impl(c)
+            n = nitems(c)
+            ctx.count('via:' + c.pop('_via', 'none'))
+            ctx.case(c, nontrivial=n > 0 and not c.get('expect_reject'))
+            ctx.count('kind:' + c['kind'])
+            ctx.count('size:%d' % min(n, 6))
+            ctx.count('inputs:normal=%d,tex=%d' % (1 if c['normal'] else 0, len(c['tex'])))
+            ctx.count('nodes:%d' % len(c['matrices']))
+            ctx.count('outcome:' + ('reject' if answers[0] == 'reject' else 'accept'))
+            ctx.count('positions', len(positions(n)) * 2 if not c.get('expect_reject') else 0)
+            if c['kind'] not in ARITY and any(v == 0 for v in c['vcounts']):
+                ctx.count('polygons-with-zero-corners')
+            if bad:
+                if bad[0] not in reported:
+                    reported.add(bad[0])
+                    small = shrink(c, bad[0])
+                    _, b2 = run_impl(small)
+                    small.pop('_via', None)
+                    ctx.violation(b2[0], b2[1], dict(kind='oracle', case=small, lines=lines_of(small)))
+            elif model is not None:
+                want = model[pos:pos + len(ls)]
+                if want != answers:
+                    i = next(j for j in range(len(ls)) if j >= len(answers) or want[j] != answers[j])
+                    op = ls[i].split(' ')[0] + (':' + ls[i].split(' ')[1] if i else '')
+                    sig = 'corr:%s:%s' % (c['kind'], op)
+                    if sig not in reported:
+                        reported.add(sig)
+                        ctx.violation(sig, 'correspondence Pyc.ItemAccess <-> pycollada broke at %r: model %r, implementation %r; the direct '
+                                      'oracle found no failing input on this case (the theorems of Pyc/Props/C10.lean no longer describe the code)'
+                                      % (ls[i], want[i], answers[i] if i < len(answers) else None),
+                                      dict(kind='correspondence', case=c, line=ls[i], model=want[i], impl=answers[i] if i < len(answers) else None),
+                                      found_input=False)
+            pos += len(ls)
+        if model is not None and last:
+            tail = model[nreal:]
+            wrong = [l for l, a in zip(MALFORMED, tail) if a != 'bad-op']
+            ctx.count('malformed-lines', len(MALFORMED))
+            if wrong:
+                ctx.violation('corr:malformed', 'driver accepted malformed request(s): %r' % wrong[:3], dict(kind='correspondence', lines=wrong), found_input=False)
     ctx.assumptions.append('numpy reshape / fancy indexing / slicing / cumsum and the legacy __getitem__ iteration protocol are modelled '
                            '(Pyc/Model/ItemAccess.lean); index entries and vcounts are non-negative and vcounts add up to the corner count')
 
